@@ -94,6 +94,10 @@ class QM:
 
 def fro_atom(x: QM):
     """||X||_F as a value-numbered atom, canonical under X -> -X and X -> X^H."""
+    if list(x.nc.terms) == [()] and x.shape is not None and len(x.shape) == 2 and x.shape[0] == x.shape[1] \
+            and isinstance(x.shape[0], int):
+        c = x.nc.terms[()]
+        return abs(c) * Poly.const(x.shape[0]).sqrt()       # ||c I_n||_F = |c| sqrt(n)
     cands = [x.nc, -x.nc, x.nc.adj(), -(x.nc.adj())]
     k = min((c.key() for c in cands), key=repr)
     if not k:
